@@ -1,4 +1,4 @@
-import PoolModel.C10Account
+import PoolModel.C10Order
 import PoolModel.Util
 /-! Line-protocol driver of the C10 model. Every op carries bytes produced by the real code (hex; `-` = empty,
 `nil` = absent key) and prints the model's decoding in a canonical text form plus `re=1` when the model's
@@ -60,6 +60,30 @@ def elemOp (ty : String) (b : Bytes) : String :=
   | "outpoint" => renderRes b (readOutPoint b) (fun o => s!"{hx o.hash}:{o.index}") (fun o => some (encOutPoint o))
   | _ => "bad-op"
 
+def renderKeys (ks : List Bytes) : String :=
+  if ks.isEmpty then "." else joinWith "/" (ks.map hx)
+
+def b2s (b : Bool) : String := if b then "1" else "0"
+
+def renderKit (k : Kit) : String :=
+  s!"n={hx k.nonce} pre={hx k.preimage} ver={k.version} st={k.state} fr={k.fixedRate} amt={k.amt} " ++
+  s!"u={k.units} uu={k.unitsUnfulfilled} kl={k.multiSigKeyLocator.family}/{k.multiSigKeyLocator.index} " ++
+  s!"fee={k.maxBatchFeeRate} ak={hx k.acctKey} ld={k.leaseDuration} mum={k.minUnitsMatch} ct={k.channelType} " ++
+  s!"allow={renderKeys k.allowedNodeIDs} deny={renderKeys k.notAllowedNodeIDs} pub={b2s k.isPublic} " ++
+  s!"at={k.auctionType}"
+
+def renderOrder : Order → String
+  | .ask k a c => s!"ask {renderKit k} ann={a} conf={c}"
+  | .bid k t s tk u z =>
+    s!"bid {renderKit k} tier={t} scb={s} tk=" ++
+    (match tk with
+     | some b => hx b
+     | none => "nil") ++ s!" un={b2s u} zc={b2s z}"
+
+/-- `nil` = key absent -/
+def optBytes (s : String) : Option (Option Bytes) :=
+  if s == "nil" then some none else (unhex s).map some
+
 def parseKnown (s : String) : Option (List (Nat × RecKind)) :=
   if s == "-" then some [] else
   (s.splitOn ",").mapM fun e =>
@@ -96,6 +120,29 @@ def drvStep (s : DrvSt) (args : List String) : DrvSt × String :=
   | ["el", ty, h] =>
     match unhex h with
     | some b => (s, elemOp ty b)
+    | none => (s, "bad-op")
+  | ["order", n, b, mu, t, ti] =>
+    match unhex n, optBytes b, optBytes mu, optBytes t, optBytes ti with
+    | some n, some b, some mu, some t, some ti =>
+      let rec' : OrderRec := ⟨b, mu, t, ti⟩
+      (s, match loadOrder n rec' with
+          | .ok o _ => s!"ok {renderOrder o} re={b2s (storeOrder o == rec')}"
+          | .err => "err"
+          | .panic => "panic")
+    | _, _, _, _, _ => (s, "bad-op")
+  | ["ordbase", n, h] =>
+    match unhex n, unhex h with
+    | some n, some b => (s, renderRes b (deserializeOrder n b) renderOrder (fun o => some (serializeOrder o)))
+    | _, _ => (s, "bad-op")
+  | ["ordtlv", kind, h] =>
+    match unhex h with
+    | some b =>
+      let fresh : Order := if kind == "bid" then .bid (Kit.new (List.replicate 32 0)) 0 0 none false false
+        else .ask (Kit.new (List.replicate 32 0)) 0 0
+      (s, match deserializeOrderTlvData b fresh with
+          | .ok o _ => s!"ok {renderOrder o}"
+          | .err => "err"
+          | .panic => "panic")
     | none => (s, "bad-op")
   | ["tlv", k, h] =>
     match parseKnown k, unhex h with
